@@ -1367,9 +1367,12 @@ class ProbabilisticTensorDictSequential(TensorDictSequential):
         tensordict_out: TensorDictBase | None = None,
         **kwargs,
     ) -> TensorDictBase:
-        if (tensordict_out is None and self._select_before_return) or (
-            tensordict_out is not None
+        if (
+            (tensordict_out is None and self._select_before_return)
+            or (tensordict_out is not None)
+            or (self.inplace is False or self.inplace == "empty")
         ):
+            # as in TensorDictSequential.forward: with inplace=False / "empty" the input is left as it is
             tensordict_exec = tensordict.copy()
         else:
             tensordict_exec = tensordict
